@@ -23,7 +23,8 @@ CLAIM = {
             "path before any return (so approved and refused requests age the window alike), start_sec is re-aligned "
             "to current_sec - current_sec % bucket_interval, nshift = (current_sec - start_sec)/bucket_interval capped "
             "at len, and velocity() sums every bucket. Does not decide the sliding-window inequality itself "
-            "(arithmetic over arrival times).",
+            "(arithmetic over arrival times). (R12.4) every approval that counts an amount in a velocity control persists "
+            "the node state (update_node) before the success return, so the counted amount is in the store at restart.",
     "note": "rustc MIR; saturating arithmetic treated as addition; clock values trusted",
     "technique": "static analysis: provenance slices (slot agreement) + must-pass-through + guard-scenario entailment",
 }
@@ -35,6 +36,7 @@ def run(ctx):
     r121(ctx)
     r122(ctx)
     r123(ctx)
+    r124(ctx)
 
 
 def r121(ctx):
@@ -257,3 +259,41 @@ def r123(ctx):
             src_ok = True
     ctx.ob("R12.3", src_ok, f"{vb.name}/sums-all-buckets", "velocity() no longer iterates over self.buckets",
            where=f"{vb.file}:{vb.line}", sample="for bucket in self.buckets.iter()")
+
+
+def r124(ctx):
+    ctx.rule("R12.4", "restart: an amount counted by VelocityControl::insert (true edge) is persisted with update_node "
+                      "before the approving function returns success")
+    from engine import effects
+    p = ctx.prog
+    classes = effects.Classes({"velocity": [("node::NodeState", "velocity_control"), ("node::NodeState", "fee_velocity_control"),
+                                            ("velocity::VelocityControl", None)]})
+    pers = {"velocity": lambda n: n in (LS + "persist::Persist::update_node", LS + "persist::Persist::new_node")
+            or n.endswith("persist::Persist>::update_node")}
+    eff = effects.Effects(ctx, classes)
+    du = effects.Durability(ctx, eff, pers, mutates_only_on_success={f"{VC}::insert"},
+                            exceptions={(f"{NODE}::update_velocity_controls", "velocity")},
+                            storage_pred=pers["velocity"])
+    fns = [f"{NODE}::add_invoice", f"{NODE}::add_keysend", f"{NODE}::check_onchain_tx"]
+    others = [b for b in p.bodies.values() if b.d.krate == "lightning_signer" and b.d.kind == "AssocFn" and b.d.pub and
+              "::node::Node::" in b.name and not R.is_test_util(b.name) and "velocity" in eff.summary(b)
+              and not b.name.endswith(("::new", "::new_full", "::new_from_persistence", "::restore_node", "::restore_nodes",
+                                       "::update_velocity_controls", "::new_extended"))]
+    names = sorted(set(fns) | {b.name for b in others})
+    ctx.floor("R12.4", "functions counting velocity", len(names), 3)
+    for fn in names:
+        b = p.fn(fn)
+        lk = du.leaks(b, "velocity")
+        seen = set()
+        if not lk:
+            ctx.ob("R12.4", True, f"{fn}/velocity/durable", "", where=f"{b.file}:{b.line}",
+                   sample="counted amount persisted (update_node) before success return")
+        for (bi, desc, ln), r in lk:
+            tag = desc.split("(")[0].replace("call ", "").rsplit("::", 1)[-1]
+            if tag in seen:
+                continue
+            seen.add(tag)
+            ctx.ob("R12.4", False, f"{fn}/velocity/{tag}/not-persisted",
+                   f"`{fn}` counts an amount against a velocity limit ({desc}, line {ln}) and returns success (line "
+                   f"{r['line']}) without persisting the node state: a restart forgets the amount already counted",
+                   where=f"{b.file}:{ln}")
